@@ -237,10 +237,24 @@ func (a *an) union(x, y *types.Var) {
 
 // calleeOf resolves the static callee of a call (package-level function or method of the package)
 func (a *an) calleeOf(c *ast.CallExpr) *types.Func {
-	switch f := unparen(c.Fun).(type) {
+	return a.funcOf(c.Fun, 0)
+}
+
+// funcOf resolves an expression to the package function or method it denotes, looking through method values and
+// function-typed locals with a single definition (`f := d.accept; f(t)`)
+func (a *an) funcOf(e ast.Expr, depth int) *types.Func {
+	if depth > 4 {
+		return nil
+	}
+	switch f := unparen(e).(type) {
 	case *ast.Ident:
 		if fn, ok := a.info.Uses[f].(*types.Func); ok {
 			return fn
+		}
+		if v, ok := a.info.Uses[f].(*types.Var); ok && !v.IsField() {
+			if d, ok := a.defs[v]; ok && d != nil {
+				return a.funcOf(d, depth+1)
+			}
 		}
 	case *ast.SelectorExpr:
 		if s, ok := a.info.Selections[f]; ok {
@@ -499,7 +513,9 @@ type wctx struct {
 	role   string
 	mult   string // once | cond | perWorker | loop
 	fnMult string // multiplicity at the entry of the current function
-	fn     *ast.FuncDecl
+	// body of the innermost enclosing for loop of the current function (nil outside loops)
+	loopBody []ast.Stmt
+	fn       *ast.FuncDecl
 	// deferred errs.Recovery(handler field) seen so far in the current function
 	recov *bool
 }
@@ -510,6 +526,8 @@ func combine(outer, inner string) string {
 		return inner
 	case inner == "once":
 		return outer
+	case outer == "unclassified" || inner == "unclassified":
+		return "unclassified"
 	default:
 		return "other"
 	}
@@ -592,26 +610,124 @@ func (a *an) walkBlock(list []ast.Stmt, c wctx) {
 	}
 }
 
+// mentionsWorkers: the expression reads the field set by the Workers option
+func (a *an) mentionsWorkers(n ast.Node) bool {
+	found := false
+	if n == nil {
+		return false
+	}
+	ast.Inspect(n, func(m ast.Node) bool {
+		if e, ok := m.(ast.Expr); ok {
+			if v := a.varOf(e); v != nil && v == a.workersField {
+				found = true
+			}
+		}
+		return !found
+	})
+	return found
+}
+
+func (a *an) isWorkers(e ast.Expr) bool {
+	v := a.varOf(e)
+	if v != nil && v == a.workersField {
+		return true
+	}
+	if v != nil {
+		if d, ok := a.defs[v]; ok && d != nil { // n := q.workers
+			return a.isWorkers(d)
+		}
+	}
+	return false
+}
+
+func (a *an) constIs(e ast.Expr, k int64) bool {
+	if tv, ok := a.info.Types[e]; ok && tv.Value != nil {
+		if v, ok := constant.Int64Val(constant.ToInt(tv.Value)); ok {
+			return v == k
+		}
+	}
+	return false
+}
+
+// loopMult: does the loop run exactly Workers times?  Recognised: `for range W`, `for i := range W`, counting up
+// `i := 0; i < W | i != W; i++`, `i := 1; i <= W; i++`, counting down `n := W; n > 0 | n != 0 | n >= 1; n--`.  A loop whose
+// header reads the Workers field in some other way is `unclassified` (no statement is made about it; listed in the
+// evidence); any other loop is `loop`.
 func (a *an) loopMult(s ast.Stmt) string {
 	switch x := s.(type) {
 	case *ast.ForStmt:
-		if b, ok := x.Cond.(*ast.BinaryExpr); ok && b.Op == token.LSS && x.Init != nil && x.Post != nil {
-			if as, ok := x.Init.(*ast.AssignStmt); ok && len(as.Lhs) == 1 && len(as.Rhs) == 1 {
-				if tv, ok := a.info.Types[as.Rhs[0]]; ok && tv.Value != nil && constant.Sign(tv.Value) == 0 {
-					if inc, ok := x.Post.(*ast.IncDecStmt); ok && inc.Tok == token.INC &&
-						a.varOf(inc.X) == a.varOf(as.Lhs[0]) && a.varOf(b.X) == a.varOf(as.Lhs[0]) &&
-						a.varOf(b.Y) != nil && a.varOf(b.Y) == a.workersField {
-						return "perWorker"
-					}
+		as, okI := x.Init.(*ast.AssignStmt)
+		b, okC := x.Cond.(*ast.BinaryExpr)
+		inc, okP := x.Post.(*ast.IncDecStmt)
+		if okI && okC && okP && len(as.Lhs) == 1 && len(as.Rhs) == 1 {
+			iv := a.varOf(as.Lhs[0])
+			if iv != nil && a.varOf(inc.X) == iv && a.varOf(b.X) == iv {
+				up := inc.Tok == token.INC
+				switch {
+				case up && a.constIs(as.Rhs[0], 0) && (b.Op == token.LSS || b.Op == token.NEQ) && a.isWorkers(b.Y):
+					return "perWorker"
+				case up && a.constIs(as.Rhs[0], 1) && b.Op == token.LEQ && a.isWorkers(b.Y):
+					return "perWorker"
+				case !up && a.isWorkers(as.Rhs[0]) && (b.Op == token.GTR || b.Op == token.NEQ) && a.constIs(b.Y, 0):
+					return "perWorker"
+				case !up && a.isWorkers(as.Rhs[0]) && b.Op == token.GEQ && a.constIs(b.Y, 1):
+					return "perWorker"
 				}
 			}
 		}
+		if a.mentionsWorkers(x.Init) || a.mentionsWorkers(x.Cond) {
+			return "unclassified"
+		}
 	case *ast.RangeStmt:
-		if v := a.varOf(x.X); v != nil && v == a.workersField {
+		if a.isWorkers(x.X) {
 			return "perWorker"
+		}
+		if a.mentionsWorkers(x.X) {
+			return "unclassified"
 		}
 	}
 	return "loop"
+}
+
+func endsLoop(list []ast.Stmt) bool {
+	if len(list) == 0 {
+		return false
+	}
+	switch x := list[len(list)-1].(type) {
+	case *ast.ReturnStmt:
+		return true
+	case *ast.BranchStmt:
+		return x.Tok == token.BREAK || x.Tok == token.GOTO
+	}
+	return false
+}
+
+// leavesLoopWhenClosed: some statement of the loop body is `if !ok { …; return|break }` (or `if ok { … } else { … return|break }`)
+func (a *an) leavesLoopWhenClosed(body []ast.Stmt, okv *types.Var) bool {
+	for _, s := range body {
+		is, isIf := s.(*ast.IfStmt)
+		if !isIf {
+			continue
+		}
+		switch cnd := unparen(is.Cond).(type) {
+		case *ast.UnaryExpr:
+			if cnd.Op == token.NOT && a.varOf(cnd.X) == okv && endsLoop(is.Body.List) {
+				return true
+			}
+		case *ast.Ident:
+			if els, ok := is.Else.(*ast.BlockStmt); ok && a.varOf(cnd) == okv && endsLoop(els.List) {
+				return true
+			}
+		case *ast.BinaryExpr:
+			if tv, ok := a.info.Types[cnd.Y]; ok && tv.Value != nil && tv.Value.Kind() == constant.Bool && a.varOf(cnd.X) == okv {
+				isFalse := !constant.BoolVal(tv.Value)
+				if ((cnd.Op == token.EQL && isFalse) || (cnd.Op == token.NEQ && !isFalse)) && endsLoop(is.Body.List) {
+					return true
+				}
+			}
+		}
+	}
+	return false
 }
 
 func (a *an) emit(c wctx, kind string, ch ast.Expr) {
@@ -650,6 +766,15 @@ func (a *an) walkStmt(s ast.Stmt, c wctx) {
 		a.walkExpr(x.Value, c)
 		a.emit(c, "send", x.Chan)
 	case *ast.AssignStmt:
+		if len(x.Lhs) == 2 && len(x.Rhs) == 1 {
+			if u, ok := unparen(x.Rhs[0]).(*ast.UnaryExpr); ok && u.Op == token.ARROW && c.loopBody != nil {
+				if okv := a.varOf(x.Lhs[1]); okv != nil && a.leavesLoopWhenClosed(c.loopBody, okv) {
+					// `for { v, ok := <-ch; if !ok { return } … }` is `for v := range ch { … }`: receive until closed
+					a.emit(c, "rangeRecv", u.X)
+					return
+				}
+			}
+		}
 		for _, r := range x.Rhs {
 			a.walkExpr(r, c)
 		}
@@ -686,10 +811,12 @@ func (a *an) walkStmt(s ast.Stmt, c wctx) {
 		}
 		ci := c
 		ci.mult = combine(c.mult, a.loopMult(x))
+		ci.loopBody = x.Body.List
 		a.walkBlock(x.Body.List, ci)
 		a.walkStmt(x.Post, ci)
 	case *ast.RangeStmt:
 		ci := c
+		ci.loopBody = x.Body.List
 		if a.isChan(x.X) {
 			a.emit(c, "rangeRecv", x.X)
 			ci.mult = combine(c.mult, "loop")
